@@ -216,19 +216,32 @@ def texPredict (md : MeshData) (ps : PosSource) (corner : Nat) (data : Array Int
     let pnx := px - nx
     let pny := py - ny
     let pnz := pz - nz
-    let pnNorm2 ← dot3 "pn.SquaredNorm" (pnx, pny, pnz) (pnx, pny, pnz)
+    let cnx := tx - nx
+    let cny := ty - ny
+    let cnz := tz - nz
+    -- squared norm of pn and dot product of cn and pn with overflow checks: "cannot be predicted"
+    -- (`fix:` commit 6ce8bba)
+    let int64Max : Int := 2 ^ 63 - 1
+    let mut pnNorm2 : Int := 0
+    let mut cnDotPn : Int := 0
+    for (pi, ci) in [(pnx, cnx), (pny, cny), (pnz, cnz)] do
+      let a := iabs pi
+      let b := iabs ci
+      if a > 0xffffffff || b > 0xffffffff then return none
+      let aa := a * a
+      if aa > int64Max - pnNorm2 then return none
+      pnNorm2 := pnNorm2 + aa
+      let ab := a * b
+      if ab > int64Max then return none
+      let term := if (pi < 0) != (ci < 0) then -ab else ab
+      if (term > 0 && cnDotPn > int64Max - term) || (term < 0 && cnDotPn < -int64Max - term) then return none
+      cnDotPn := cnDotPn + term
     if pnNorm2 != 0 then
-      let cnx := tx - nx
-      let cny := ty - ny
-      let cnz := tz - nz
-      let cnDotPn ← dot3 "pn.Dot(cn)" (pnx, pny, pnz) (cnx, cny, cnz)
       let pnU := pU - nU
       let pnV := pV - nV
-      let int64Max : Int := 2 ^ 63 - 1
       let nUvAbsMax := max (iabs nU) (iabs nV)
       if nUvAbsMax > int64Max / pnNorm2 then return none
       let pnUvAbsMax := max (iabs pnU) (iabs pnV)
-      if cnDotPn == -(2 ^ 63) then throw (.ub "std::abs(INT64_MIN)")
       if iabs cnDotPn > int64Max / pnUvAbsMax then return none
       let xU ← i64 "x_uv" (nU * pnNorm2 + cnDotPn * pnU)
       let xV ← i64 "x_uv" (nV * pnNorm2 + cnDotPn * pnV)
@@ -281,9 +294,9 @@ def texCoordsDecode (md : MeshData) (ps : PosSource) (wt : Leaf.WrapT) (nc : Nat
       data ← applyWrap wt 2 (2 * p) (fun c => pure (if c == 0 then u else v)) data
   pure (data, used)
 
-/-- `MeshPredictionSchemeGeometricNormalPredictorArea::ComputePredictedValue`
-    (`TRIANGLE_AREA`, the only mode of bitstream 2.2) -/
-def normalPredict (md : MeshData) (ps : PosSource) (corner : Nat) : R (Int × Int × Int) := do
+/-- `MeshPredictionSchemeGeometricNormalPredictorArea::ComputePredictedValue`;
+    `oneTriangle` = `ONE_TRIANGLE` mode (selectable by bitstreams < 2.2), else `TRIANGLE_AREA` -/
+def normalPredict (md : MeshData) (ps : PosSource) (corner : Nat) (oneTriangle : Bool := false) : R (Int × Int × Int) := do
   let posOfCorner := fun (c : Nat) => do
     let v ← md.t.vertex c
     let d ← rd "vertex_to_data_map()->at" md.v2d v
@@ -300,17 +313,18 @@ def normalPredict (md : MeshData) (ps : PosSource) (corner : Nat) : R (Int × In
     if c == inv then
       fin := true
       break
-    let (ax, ay, az) ← posOfCorner (nextC c)
-    let (bx, b_y, bz) ← posOfCorner (prevC c)
+    let (ax, ay, az) ← posOfCorner (nextC (if oneTriangle then corner else c))
+    let (bx, b_y, bz) ← posOfCorner (prevC (if oneTriangle then corner else c))
     let dnx := ax - cx
     let dny := ay - cy
     let dnz := az - cz
     let dpx := bx - cx
     let dpy := b_y - cy
     let dpz := bz - cz
-    let r0 ← i64 "CrossProduct" ((← i64 "CrossProduct" (dny * dpz)) - (← i64 "CrossProduct" (dnz * dpy)))
-    let r1 ← i64 "CrossProduct" ((← i64 "CrossProduct" (dnz * dpx)) - (← i64 "CrossProduct" (dnx * dpz)))
-    let r2 ← i64 "CrossProduct" ((← i64 "CrossProduct" (dnx * dpy)) - (← i64 "CrossProduct" (dny * dpx)))
+    -- the cross product is formed in uint64_t (`fix:` commit 6ed73ff): wrap-around, no overflow
+    let r0 := dny * dpz - dnz * dpy
+    let r1 := dnz * dpx - dnx * dpz
+    let r2 := dnx * dpy - dny * dpx
     n0 := (n0 + u64 r0) % 2 ^ 64
     n1 := (n1 + u64 r1) % 2 ^ 64
     n2 := (n2 + u64 r2) % 2 ^ 64
@@ -329,7 +343,8 @@ def normalPredict (md : MeshData) (ps : PosSource) (corner : Nat) : R (Int × In
   let y := s64 n1
   let z := s64 n2
   if x == -(2 ^ 63) || y == -(2 ^ 63) || z == -(2 ^ 63) then throw (.ub "std::abs(INT64_MIN)")
-  let absSum := absSum3 x y z
+  -- ONE_TRIANGLE: `static_cast<int32_t>(normal.AbsSum())`
+  let absSum := if oneTriangle then wrap32 (absSum3 x y z) else absSum3 x y z
   let upper : Int := 2 ^ 29
   let (x, y, z) :=
     if absSum > upper then
@@ -338,16 +353,18 @@ def normalPredict (md : MeshData) (ps : PosSource) (corner : Nat) : R (Int × In
     else (x, y, z)
   pure (wrap32 x, wrap32 y, wrap32 z)
 
-/-- `MeshPredictionSchemeGeometricNormalDecoder::ComputeOriginalValues`; `flips` = the bits of
-    `flip_normal_bit_decoder_` in decoding order (one per entry) -/
-def geometricNormalDecode (md : MeshData) (ps : PosSource) (ot : OctaT) (fd : RAnsBitDec)
+/-- `MeshPredictionSchemeGeometricNormalDecoder::ComputeOriginalValues`; `fd` = the
+    `flip_normal_bit_decoder_`, `dec` = `ComputeOriginalValue` of the octahedron transform
+    (canonicalized, or the legacy one of bitstreams < 2.2) -/
+def geometricNormalDecode (md : MeshData) (ps : PosSource) (ot : OctaT)
+    (dec : Int × Int → Int × Int → Int × Int) (oneTriangle : Bool) (fd : RAnsBitDec)
     (data : Array Int) : R (Array Int × Nat) := do
   let mut data := data
   let mut fd := fd
   let mut flipped := 0
   for p in [0:md.d2c.size] do
     let corner := md.d2c[p]!
-    let pred ← normalPredict md ps corner
+    let pred ← normalPredict md ps corner oneTriangle
     let (x, y, z) := Octa.canonicalizeIntVec ot pred
     let (flip, fd') := fd.nextBit
     fd := fd'
@@ -356,9 +373,134 @@ def geometricNormalDecode (md : MeshData) (ps : PosSource) (ot : OctaT) (fd : RA
     let (s, t) := Octa.intVecToCoords ot v
     let c0 ← rdI "in_corr" data (2 * p)
     let c1 ← rdI "in_corr" data (2 * p + 1)
-    let (a, b) := Leaf.octaDec ot (s, t) (c0, c1)
+    let (a, b) := dec (s, t) (c0, c1)
     data ← wrI "out_data" data (2 * p) a
     data ← wrI "out_data" data (2 * p + 1) b
   pure (data, flipped)
+
+/-- `MeshPredictionSchemeMultiParallelogramDecoder::ComputeOriginalValues` (legacy scheme) -/
+def multiParallelogramDecode (md : MeshData) (wt : Leaf.WrapT) (nc : Nat) (data : Array Int) : R (Array Int × Nat) := do
+  let mut data ← applyWrap wt nc 0 (fun _ => pure 0) data
+  let ncorn := 3 * md.t.numFaces
+  let mut maxPar : Nat := 0
+  for p in [1:md.d2c.size] do
+    let start := md.d2c[p]!
+    let mut corner := start
+    let mut numPar : Nat := 0
+    let mut pred : Array Int := Array.replicate nc 0
+    let mut fin := false
+    for _ in [0:ncorn + 2] do
+      if corner == inv then
+        fin := true
+        break
+      match ← parallelogramPrediction md p corner data nc with
+      | some pv =>
+        for c in [0:nc] do
+          pred := pred.set! c (wrap32 (pred[c]! + pv[c]!))
+        numPar := numPar + 1
+      | none => pure ()
+      corner ← md.t.swingRight corner
+      if corner == start then corner := inv
+    if !fin then throw (.fuel "multi-parallelogram: corners of a vertex")
+    if numPar > maxPar then maxPar := numPar
+    if numPar == 0 then
+      let d := data
+      data ← applyWrap wt nc (p * nc) (fun c => rdI "out_data" d ((p - 1) * nc + c)) data
+    else
+      let m := pred.map fun x => Int.tdiv x numPar
+      data ← applyWrap wt nc (p * nc) (fun c => rdI "pred_vals" m c) data
+  pure (data, maxPar)
+
+/-- positions as `Vector3f` for the deprecated tex-coord scheme: `GetPositionForEntryId` converts
+    the parent attribute's value to float -/
+structure PosSourceF where
+  pointIds : Array Nat
+  map : Array Nat
+  /-- three float32 values per entry -/
+  values : Array Float32
+
+def PosSourceF.get (ps : PosSourceF) (dataId : Nat) : R (Float32 × Float32 × Float32) := do
+  let pt ← rd "entry_to_point_id_map_" ps.pointIds dataId
+  let vi ← rd "pos_attribute_->mapped_index" ps.map pt
+  if 3 * vi + 2 < ps.values.size then
+    pure (ps.values[3 * vi]!, ps.values[3 * vi + 1]!, ps.values[3 * vi + 2]!)
+  else throw (.ub "pos_attribute_->ConvertValue")
+
+/-- `double → int` with the range test of the deprecated tex-coord decoder
+    (`isnan || > INT_MAX || < INT_MIN` gives `INT_MIN`); `u` is integral when in range -/
+def doubleToIntChecked (u : Float) : Int :=
+  if u.isNaN || u > 2147483647.0 || u < -2147483648.0 then -2147483648 else u.toInt64.toInt
+
+/-- `MeshPredictionSchemeTexCoordsDecoder::ComputePredictedValue` (float arithmetic of the
+    deprecated scheme, evaluated on `Float32` / `Float` = the SSE single / double operations of the
+    compiled library; no fused multiply-add on the baseline x86-64 target). `pre12` = bitstream < 1.2. -/
+def texPredictDeprecated (md : MeshData) (ps : PosSourceF) (pre12 : Bool) (corner : Nat) (data : Array Int)
+    (dataId : Nat) (orient : Array Bool) : R (Option ((Int × Int) × Array Bool)) := do
+  let nextVert ← md.t.vertex (nextC corner)
+  let prevVert ← md.t.vertex (prevC corner)
+  let nextData ← rd "vertex_to_data_map()->at" md.v2d nextVert
+  let prevData ← rd "vertex_to_data_map()->at" md.v2d prevVert
+  if prevData < dataId && nextData < dataId then
+    let nU := Float32.ofInt (← rdI "data" data (2 * nextData))
+    let nV := Float32.ofInt (← rdI "data" data (2 * nextData + 1))
+    let pU := Float32.ofInt (← rdI "data" data (2 * prevData))
+    let pV := Float32.ofInt (← rdI "data" data (2 * prevData + 1))
+    if pU == nU && pV == nV then
+      return some ((doubleToIntChecked pU.toFloat, doubleToIntChecked pV.toFloat), orient)
+    let (tx, ty, tz) ← ps.get dataId
+    let (nx, ny, nz) ← ps.get nextData
+    let (px, py, pz) ← ps.get prevData
+    let pnx := px - nx
+    let pny := py - ny
+    let pnz := pz - nz
+    let cnx := tx - nx
+    let cny := ty - ny
+    let cnz := tz - nz
+    let zero : Float32 := 0
+    let dot := fun (a b c x y z : Float32) => ((zero + a * x) + b * y) + c * z
+    let pnNorm2 := dot pnx pny pnz pnx pny pnz
+    let mut s : Float32 := 0
+    let mut t : Float32 := 0
+    if pre12 || pnNorm2 > 0 then
+      s := dot pnx pny pnz cnx cny cnz / pnNorm2
+      let ex := cnx - pnx * s
+      let ey := cny - pny * s
+      let ez := cnz - pnz * s
+      t := (dot ex ey ez ex ey ez / pnNorm2).sqrt
+    let pnU := pU - nU
+    let pnV := pV - nV
+    let pnus := pnU * s + nU
+    let pnut := pnU * t
+    let pnvs := pnV * s + nV
+    let pnvt := pnV * t
+    if orient.isEmpty then return none
+    let orientation := orient.back!
+    let orient := orient.pop
+    let (u, v) := if orientation then (pnus - pnvt, pnvs + pnut) else (pnus + pnvt, pnvs - pnut)
+    let fu := (u.toFloat + 0.5).floor
+    let fv := (v.toFloat + 0.5).floor
+    return some ((doubleToIntChecked fu, doubleToIntChecked fv), orient)
+  let mut off := 0
+  if prevData < dataId then off := prevData * 2
+  if nextData < dataId then off := nextData * 2
+  else
+    if dataId > 0 then off := (dataId - 1) * 2
+    else return some ((0, 0), orient)
+  pure (some ((← rdI "data" data off, ← rdI "data" data (off + 1)), orient))
+
+/-- `MeshPredictionSchemeTexCoordsDecoder::ComputeOriginalValues` -/
+def texCoordsDeprecatedDecode (md : MeshData) (ps : PosSourceF) (pre12 : Bool) (wt : Leaf.WrapT) (nc : Nat)
+    (orient : Array Bool) (data : Array Int) : R (Array Int) := do
+  if nc != 2 then throw .fail
+  let mut data := data
+  let mut orient := orient
+  for p in [0:md.d2c.size] do
+    let corner := md.d2c[p]!
+    match ← texPredictDeprecated md ps pre12 corner data p orient with
+    | none => throw .fail
+    | some ((u, v), o) =>
+      orient := o
+      data ← applyWrap wt 2 (2 * p) (fun c => pure (if c == 0 then u else v)) data
+  pure data
 
 end Draco.Eb
